@@ -1,28 +1,45 @@
-//! c06 — steps the REAL `DiskCache::put` / `DiskCache::get` (src/cache/disk.rs) through a
-//! given interleaving, using the named sync points of hook H2, then "kills the server"
-//! (the calls still in flight are never resumed, the cache object is abandoned) and opens
-//! a fresh `DiskCache` on the same directory.
+//! c06 — steps the REAL `DiskCache` (src/cache/disk.rs) — both of its stores: the result store
+//! (`put` / `get`) and the nested preprocessor-entry store over `<root>/preprocessor`
+//! (`put_preprocessor_cache_entry` / `get_preprocessor_cache_entry`) — through a given interleaving,
+//! then "kills the server" (the calls still in flight are never resumed, the cache object is
+//! abandoned) and opens a fresh `DiskCache` on the same directory.
 //!
-//! legs:  `disk`  case   = ( cap ( (key pid plen elen mtime) ... ) ( thread ... ) ( tid ... ) )
+//! legs:  `disk`  case   = ( cap order ( init ... ) ( thread ... ) ( tid ... ) )
+//!                init   = ( main key pid plen elen mtime ) | ( pp key pid plen elen mtime )
+//!                       | ( raw path pid plen elen mtime )      any file, path relative to the root
 //!                thread = ( put key pid plen elen nchunks fail ) | ( get key )
+//!                       | ( pp_put key pid plen elen nchunks )   | ( pp_get key )
 //!                         fail = 1: the real write_all is made to fail after elen/2 bytes (RLIMIT_FSIZE, EFBIG)
-//!                result = ( ( r ... ) ( o ... ) ntmp size ( o ... ) ntmp size )
+//!                order  = 0: observations look up the result store first, 1: the nested store first
+//!                result = ( ( r ... ) OBS OBS ), OBS (flattened) =
+//!                         ( main-lookup ... ) ( pp-lookup ... ) ntmp size main-index pp-index
 //!                  r (put) = ok | too_large | err | unfinished | stuck
-//!                  r (get), o = miss | ( hit pid ) | torn | ( foreign pid ) | err | unfinished | stuck
-//!                  first  ( o ... ) ntmp size : lookups of every key of the case (sorted) through the
-//!                         still-live cache after the schedule, temp files on disk, current_size;
-//!                  second ( o ... ) ntmp size : the same through a fresh DiskCache on the directory.
-//!        `size`  case   = ( pid plen )     result = length of the real cache entry for that payload
+//!                  r (get), lookup = miss | ( hit pid ) | torn | ( foreign pid ) | err | unfinished | stuck
+//!                  ntmp = `.sccachetmp*` files anywhere under the root; size = current_size;
+//!                  index = none | ( ( path size ) ... ) sorted, paths relative to the cache root
+//!                  (hook DiskCache::verif_indexes);
+//!                  first OBS through the still-live cache after the schedule, second through a fresh
+//!                  DiskCache on the directory.
+//!        `size`  case   = ( pid plen ) | ( pp pid plen )    result = length of the real entry
 //!
-//! One model step of thread t = release the real call t from the sync point it is parked at and
-//! wait until it parks at its next one or returns.  Parked calls are told apart by the OS thread
-//! they run on (a `spawn_blocking` closure stays on one pool thread), bound when the call is started.
+//! One model step of thread t = release the real call t from the point it is parked at and wait until
+//! it parks at its next one or returns.  Result-store calls park at the H2 sync points of disk.rs.
+//! The nested store's calls have no sync points in the code: a pp_put parks before the call and, after
+//! its Reserve section, at its first write(2) to a `.sccachetmp*` file — `write` is interposed in this
+//! binary for exactly that; a pp_get parks before the call and after it returned the open file.
+//! Parked calls are told apart by the OS thread they run on.
+//!
+//! After every step the mtime of every entry file the real code touched is replaced by the next value
+//! of a logical clock (as in c07.rs), so that the recency order a restarted store derives from mtimes is
+//! the order of the schedule and not of the sandbox's coarse timestamps.
 use sccache::lru_disk_cache::Error as LruError;
 use sccache::verif_hooks as hooks;
 use sccache::verif_hooks::cache::disk::DiskCache;
 use sccache::verif_hooks::cache::{Cache, CacheMode, CacheWrite, PreprocessorCacheModeConfig, Storage};
+use sccache::verif_hooks::compiler::PreprocessorCacheEntry;
+use std::cell::Cell;
 use std::collections::HashMap;
-use std::io::Write;
+use std::io::{Read, Write};
 use std::os::unix::ffi::OsStrExt;
 use std::path::{Path, PathBuf};
 use std::sync::{Arc, Condvar, Mutex};
@@ -31,6 +48,7 @@ use std::time::{Duration, Instant};
 use vh::{catch, Sx};
 
 const BASE: i64 = 1_000_000_000;
+const RANGE: i64 = 100_000_000;
 const STEP_TIMEOUT: Duration = Duration::from_secs(20);
 
 fn payload(pid: u64, plen: u64) -> Vec<u8> {
@@ -50,8 +68,61 @@ fn entry_for(pid: u64, plen: u64) -> CacheWrite {
     w
 }
 
+/// a preprocessor-cache entry that names `pid` and whose encoding grows with `plen`
+fn pp_entry_for(pid: u64, plen: u64) -> PreprocessorCacheEntry {
+    let mut e = PreprocessorCacheEntry::new();
+    let name = format!("{:0width$}", pid, width = plen.max(1) as usize);
+    e.add_result(std::time::SystemTime::now(), &name, std::iter::empty());
+    e
+}
+
+fn pp_bytes(pid: u64, plen: u64) -> Vec<u8> {
+    let mut v = vec![];
+    pp_entry_for(pid, plen).serialize_to(&mut v).expect("serialize");
+    v
+}
+
 fn make_key_path(key: &str) -> PathBuf {
     Path::new(&key[0..1]).join(&key[1..2]).join(key)
+}
+
+fn pp_key_path(key: &str) -> PathBuf {
+    Path::new("preprocessor").join(&key[0..1]).join(&key[1..2]).join(&key[2..3]).join(key)
+}
+
+// ------------------------------------------------------------------ write(2) interposition
+
+thread_local! {
+    /// set by a pp_put thread around the real call: park at the first write to a temp file
+    static PARK_ON_TEMP_WRITE: Cell<bool> = Cell::new(false);
+}
+static CUR_CTL: Mutex<Option<Arc<Ctl>>> = Mutex::new(None);
+
+fn fd_is_temp_file(fd: libc::c_int) -> bool {
+    let link = format!("/proc/self/fd/{}\0", fd);
+    let mut buf = [0u8; 4096];
+    let n = unsafe { libc::readlink(link.as_ptr() as *const libc::c_char, buf.as_mut_ptr() as *mut libc::c_char, buf.len()) };
+    if n <= 0 {
+        return false;
+    }
+    let path = &buf[..n as usize];
+    path.windows(12).any(|w| w == b"/.sccachetmp")
+}
+
+/// Every `write` of this process comes through here (the std library is linked statically into the
+/// binary, so its reference to `write` binds to this definition); it is the plain system call, except
+/// that a pp_put thread is parked before its first write to its temp file.
+#[no_mangle]
+pub unsafe extern "C" fn write(fd: libc::c_int, buf: *const libc::c_void, n: libc::size_t) -> libc::ssize_t {
+    let park = PARK_ON_TEMP_WRITE.try_with(|c| c.get()).unwrap_or(false);
+    if park && fd_is_temp_file(fd) {
+        let _ = PARK_ON_TEMP_WRITE.try_with(|c| c.set(false));
+        let ctl = CUR_CTL.lock().ok().and_then(|g| g.clone());
+        if let Some(c) = ctl {
+            c.at_point("pp.reserved");
+        }
+    }
+    libc::syscall(libc::SYS_write, fd, buf, n) as libc::ssize_t
 }
 
 // ------------------------------------------------------------------ controller
@@ -156,19 +227,30 @@ impl Ctl {
 
 #[derive(Clone)]
 struct Known {
+    pp: bool,
     key: String,
     pid: u64,
     plen: u64,
 }
 
-fn classify_hit(known: &[Known], key: &str, data: &[u8]) -> Sx {
-    for k in known.iter().filter(|k| k.key == key) {
-        if payload(k.pid, k.plen) == data {
+impl Known {
+    fn bytes(&self) -> Vec<u8> {
+        if self.pp {
+            pp_bytes(self.pid, self.plen)
+        } else {
+            payload(self.pid, self.plen)
+        }
+    }
+}
+
+fn classify_hit(known: &[Known], pp: bool, key: &str, data: &[u8]) -> Sx {
+    for k in known.iter().filter(|k| k.pp == pp && k.key == key) {
+        if k.bytes() == data {
             return Sx::L(vec![Sx::sym("hit"), Sx::n(k.pid)]);
         }
     }
-    for k in known {
-        if payload(k.pid, k.plen) == data {
+    for k in known.iter().filter(|k| k.pp == pp) {
+        if k.bytes() == data {
             return Sx::L(vec![Sx::sym("foreign"), Sx::n(k.pid)]);
         }
     }
@@ -180,7 +262,7 @@ fn do_get(h: &tokio::runtime::Handle, cache: &DiskCache, known: &[Known], key: &
         Ok(Ok(Cache::Hit(mut r))) => {
             let mut data = vec![];
             match r.get_object("obj", &mut data) {
-                Ok(_) => classify_hit(known, key, &data),
+                Ok(_) => classify_hit(known, false, key, &data),
                 Err(_) => Sx::sym("torn"),
             }
         }
@@ -202,18 +284,41 @@ fn do_put(h: &tokio::runtime::Handle, cache: &DiskCache, key: &str, pid: u64, pl
     }
 }
 
-fn temp_files(root: &Path) -> Vec<PathBuf> {
+fn do_pp_put(h: &tokio::runtime::Handle, cache: &DiskCache, key: &str, pid: u64, plen: u64) -> Sx {
+    match catch(|| h.block_on(cache.put_preprocessor_cache_entry(key, pp_entry_for(pid, plen)))) {
+        Ok(Ok(())) => Sx::sym("ok"),
+        Ok(Err(e)) => match e.downcast_ref::<LruError>() {
+            Some(LruError::FileTooLarge) => Sx::sym("too_large"),
+            _ => Sx::sym("err"),
+        },
+        Err(_) => Sx::sym("err"),
+    }
+}
+
+/// `between` runs after the call returned the open file and before anything is read from it
+fn do_pp_get<F: FnOnce()>(h: &tokio::runtime::Handle, cache: &DiskCache, known: &[Known], key: &str, between: F) -> Sx {
+    match catch(|| h.block_on(cache.get_preprocessor_cache_entry(key))) {
+        Ok(Ok(Some(mut r))) => {
+            between();
+            let mut data = vec![];
+            match r.read_to_end(&mut data) {
+                Ok(_) => classify_hit(known, true, key, &data),
+                Err(_) => Sx::sym("torn"),
+            }
+        }
+        Ok(Ok(None)) => Sx::sym("miss"),
+        _ => Sx::sym("err"),
+    }
+}
+
+fn walk_files(root: &Path) -> Vec<PathBuf> {
     fn walk(d: &Path, out: &mut Vec<PathBuf>) {
         if let Ok(rd) = std::fs::read_dir(d) {
             for e in rd.flatten() {
                 let p = e.path();
                 match e.file_type() {
                     Ok(t) if t.is_dir() => walk(&p, out),
-                    Ok(t) if t.is_file() => {
-                        if p.file_name().unwrap().as_bytes().starts_with(b".sccachetmp") {
-                            out.push(p)
-                        }
-                    }
+                    Ok(t) if t.is_file() => out.push(p),
                     _ => {}
                 }
             }
@@ -225,6 +330,30 @@ fn temp_files(root: &Path) -> Vec<PathBuf> {
     out
 }
 
+fn is_temp_name(p: &Path) -> bool {
+    p.file_name().map(|n| n.as_bytes().starts_with(b".sccachetmp")).unwrap_or(false)
+}
+
+fn temp_files(root: &Path) -> Vec<PathBuf> {
+    walk_files(root).into_iter().filter(|p| is_temp_name(p)).collect()
+}
+
+/// every entry file whose mtime is not a logical value was touched by the last step: give it the next one
+fn normalise_mtimes(root: &Path, clock: &mut i64) {
+    for p in walk_files(root) {
+        if is_temp_name(&p) {
+            continue;
+        }
+        if let Ok(m) = std::fs::metadata(&p) {
+            let mt = filetime::FileTime::from_last_modification_time(&m).unix_seconds();
+            if !(BASE..BASE + RANGE).contains(&mt) {
+                *clock += 1;
+                let _ = filetime::set_file_mtime(&p, filetime::FileTime::from_unix_time(BASE + *clock, 0));
+            }
+        }
+    }
+}
+
 fn size_of(h: &tokio::runtime::Handle, cache: &DiskCache) -> Sx {
     match catch(|| h.block_on(cache.current_size())) {
         Ok(Ok(Some(n))) => Sx::n(n),
@@ -233,9 +362,33 @@ fn size_of(h: &tokio::runtime::Handle, cache: &DiskCache) -> Sx {
     }
 }
 
+fn indexes_of(cache: &DiskCache) -> Vec<Sx> {
+    let enc = |idx: Option<Vec<(std::ffi::OsString, u64)>>, prefix: &[u8]| match idx {
+        None => Sx::sym("none"),
+        Some(v) => {
+            let mut l: Vec<(Vec<u8>, u64)> = v
+                .into_iter()
+                .map(|(k, sz)| {
+                    let mut p = prefix.to_vec();
+                    p.extend_from_slice(k.as_bytes());
+                    (p, sz)
+                })
+                .collect();
+            l.sort();
+            Sx::L(l.into_iter().map(|(p, sz)| Sx::L(vec![Sx::B(p), Sx::n(sz)])).collect())
+        }
+    };
+    match catch(|| cache.verif_indexes()) {
+        Ok([m, p]) => vec![enc(m, b""), enc(p, b"preprocessor/")],
+        Err(_) => vec![Sx::sym("err"), Sx::sym("err")],
+    }
+}
+
 enum Th {
     Put { key: String, pid: u64, plen: u64, elen: u64, chunks: u64, fail: bool },
     Get { key: String },
+    PpPut { key: String, pid: u64, plen: u64, elen: u64, chunks: u64 },
+    PpGet { key: String },
 }
 
 fn keystr(x: &Sx) -> String {
@@ -244,55 +397,87 @@ fn keystr(x: &Sx) -> String {
 
 fn run_case(case: &Sx) -> Sx {
     let cap = case.arg(0).u64();
+    let pp_first = case.arg(1).u64() != 0;
     let td = tempfile::Builder::new().prefix("vh-c06-").tempdir_in("/dev/shm").unwrap();
     let root = td.path().join("cache");
     std::fs::create_dir_all(&root).unwrap();
 
     let mut known: Vec<Known> = vec![];
-    let mut keys: Vec<String> = vec![];
-    for f in case.arg(1).list() {
-        let (key, pid, plen, elen, mt) = (keystr(f.arg(0)), f.arg(1).u64(), f.arg(2).u64(), f.arg(3).u64(), f.arg(4).u64());
-        if key.len() < 2 {
+    let mut mkeys: Vec<String> = vec![];
+    let mut pkeys: Vec<String> = vec![];
+    for f in case.arg(2).list() {
+        let kind = f.tag();
+        let (key, pid, plen, elen, mt) = (keystr(f.arg(1)), f.arg(2).u64(), f.arg(3).u64(), f.arg(4).u64(), f.arg(5).u64());
+        if (kind != "raw" && key.len() < 3) || key.is_empty() {
             return Sx::L(vec![Sx::sym("bad_key")]);
         }
-        let bytes = entry_for(pid, plen).finish().unwrap();
+        let bytes = if kind == "pp" { pp_bytes(pid, plen) } else { entry_for(pid, plen).finish().unwrap() };
         if bytes.len() as u64 != elen {
             return Sx::L(vec![Sx::sym("bad_size"), Sx::n(pid), Sx::usize(bytes.len())]);
         }
-        // a name starting with '.' is a leftover file in the root itself (temp files), not a cache key
-        let dot = key.starts_with('.');
-        let p = if dot { root.join(&key) } else { root.join(make_key_path(&key)) };
+        let p = match kind.as_str() {
+            "main" => root.join(make_key_path(&key)),
+            "pp" => root.join(pp_key_path(&key)),
+            _ => root.join(&key),
+        };
         std::fs::create_dir_all(p.parent().unwrap()).unwrap();
         std::fs::write(&p, &bytes).unwrap();
         filetime::set_file_mtime(&p, filetime::FileTime::from_unix_time(BASE + mt as i64, 0)).unwrap();
-        known.push(Known { key: key.clone(), pid, plen });
-        if !dot {
-            keys.push(key);
+        match kind.as_str() {
+            "main" => {
+                known.push(Known { pp: false, key: key.clone(), pid, plen });
+                mkeys.push(key);
+            }
+            "pp" => {
+                known.push(Known { pp: true, key: key.clone(), pid, plen });
+                pkeys.push(key);
+            }
+            _ => {}
         }
     }
     let mut threads = vec![];
-    for t in case.arg(2).list() {
+    for t in case.arg(3).list() {
         let tag = t.tag();
         let key = keystr(t.arg(1));
-        if key.len() < 2 {
+        if key.len() < 3 {
             return Sx::L(vec![Sx::sym("bad_key")]);
         }
-        keys.push(key.clone());
-        if tag == "put" {
-            let (pid, plen, elen, chunks) = (t.arg(2).u64(), t.arg(3).u64(), t.arg(4).u64(), t.arg(5).u64().max(1));
-            let fail = t.arg(6).u64() != 0;
-            let real = entry_for(pid, plen).finish().unwrap().len() as u64;
-            if real != elen {
-                return Sx::L(vec![Sx::sym("bad_size"), Sx::n(pid), Sx::n(real)]);
+        match tag.as_str() {
+            "put" => {
+                let (pid, plen, elen, chunks) = (t.arg(2).u64(), t.arg(3).u64(), t.arg(4).u64(), t.arg(5).u64().max(1));
+                let fail = t.arg(6).u64() != 0;
+                let real = entry_for(pid, plen).finish().unwrap().len() as u64;
+                if real != elen {
+                    return Sx::L(vec![Sx::sym("bad_size"), Sx::n(pid), Sx::n(real)]);
+                }
+                known.push(Known { pp: false, key: key.clone(), pid, plen });
+                mkeys.push(key.clone());
+                threads.push(Th::Put { key, pid, plen, elen, chunks, fail });
             }
-            known.push(Known { key: key.clone(), pid, plen });
-            threads.push(Th::Put { key, pid, plen, elen, chunks, fail });
-        } else {
-            threads.push(Th::Get { key });
+            "get" => {
+                mkeys.push(key.clone());
+                threads.push(Th::Get { key });
+            }
+            "pp_put" => {
+                let (pid, plen, elen, chunks) = (t.arg(2).u64(), t.arg(3).u64(), t.arg(4).u64(), t.arg(5).u64().max(1));
+                let real = pp_bytes(pid, plen).len() as u64;
+                if real != elen {
+                    return Sx::L(vec![Sx::sym("bad_size"), Sx::n(pid), Sx::n(real)]);
+                }
+                known.push(Known { pp: true, key: key.clone(), pid, plen });
+                pkeys.push(key.clone());
+                threads.push(Th::PpPut { key, pid, plen, elen, chunks });
+            }
+            _ => {
+                pkeys.push(key.clone());
+                threads.push(Th::PpGet { key });
+            }
         }
     }
-    keys.sort();
-    keys.dedup();
+    mkeys.sort();
+    mkeys.dedup();
+    pkeys.sort();
+    pkeys.dedup();
     let known = Arc::new(known);
 
     let rt = tokio::runtime::Builder::new_multi_thread()
@@ -302,20 +487,18 @@ fn run_case(case: &Sx) -> Sx {
         .build()
         .unwrap();
     let handle = rt.handle().clone();
-    let cache = Arc::new(DiskCache::new(
-        &root,
-        cap,
-        &handle,
-        PreprocessorCacheModeConfig::default(),
-        CacheMode::ReadWrite,
-    ));
+    let new_cache = || {
+        DiskCache::new(&root, cap, &handle, PreprocessorCacheModeConfig::activated(), CacheMode::ReadWrite)
+    };
+    let cache = Arc::new(new_cache());
     let ctl = Arc::new(Ctl { st: Mutex::new(CtlState::default()), cv: Condvar::new() });
     {
         let c = ctl.clone();
         hooks::set_sync_controller(Some(Box::new(move |point: &str, _key: &Path, _len: u64| c.at_point(point))));
+        *CUR_CTL.lock().unwrap() = Some(ctl.clone());
     }
 
-    // start the calls one at a time; each parks at its first sync point and is bound to its model thread
+    // start the calls one at a time; each parks at its first point and is bound to its model thread
     let mut joins = vec![];
     let mut stuck: Vec<bool> = vec![false; threads.len()];
     for (i, th) in threads.iter().enumerate() {
@@ -336,6 +519,25 @@ fn run_case(case: &Sx) -> Sx {
                     c.finish(i, r);
                 })
             }
+            Th::PpPut { key, pid, plen, .. } => {
+                let (key, pid, plen) = (key.clone(), *pid, *plen);
+                std::thread::spawn(move || {
+                    c.at_point("pp.before_reserve");
+                    PARK_ON_TEMP_WRITE.with(|f| f.set(true));
+                    let r = do_pp_put(&h, &cch, &key, pid, plen);
+                    PARK_ON_TEMP_WRITE.with(|f| f.set(false));
+                    c.finish(i, r);
+                })
+            }
+            Th::PpGet { key } => {
+                let key = key.clone();
+                std::thread::spawn(move || {
+                    c.at_point("pp.get.before");
+                    let c2 = c.clone();
+                    let r = do_pp_get(&h, &cch, &k, &key, move || c2.at_point("pp.get.opened"));
+                    c.finish(i, r);
+                })
+            }
         };
         joins.push(j);
         if !ctl.wait_parked_or_done(i, 0) {
@@ -345,18 +547,19 @@ fn run_case(case: &Sx) -> Sx {
     }
 
     // the schedule
+    let mut clock: i64 = 1000;
     let mut temp_of: HashMap<usize, PathBuf> = HashMap::new();
-    let mut seen_tmp: Vec<PathBuf> = vec![];
+    let mut seen_tmp: Vec<PathBuf> = temp_files(&root);
     let mut chunks_done: Vec<u64> = vec![0; threads.len()];
-    for s in case.arg(3).list() {
+    for s in case.arg(4).list() {
         let t = s.u64() as usize;
         if t >= threads.len() || stuck[t] || ctl.is_done(t) {
             continue;
         }
         let point = ctl.point_of(t).unwrap_or_default();
         let mut limit = None;
-        if let Th::Put { chunks, fail, elen, .. } = &threads[t] {
-            if point == "put.reserved" {
+        match &threads[t] {
+            Th::Put { chunks, fail, elen, .. } if point == "put.reserved" => {
                 chunks_done[t] += 1;
                 if *fail {
                     // the model writes `chunks` pieces and then sees the failure: the real write_all (which
@@ -369,6 +572,14 @@ fn run_case(case: &Sx) -> Sx {
                     continue; // an earlier chunk of the model's write: the real write happens with the last one
                 }
             }
+            Th::PpPut { chunks, .. } if point == "pp.reserved" => {
+                // no park point between the write and the commit section: both happen with the model's Commit
+                chunks_done[t] += 1;
+                if chunks_done[t] <= *chunks {
+                    continue;
+                }
+            }
+            _ => {}
         }
         if let Some(n) = limit {
             set_fsize_limit(Some(n));
@@ -382,16 +593,18 @@ fn run_case(case: &Sx) -> Sx {
             stuck[t] = true;
             continue;
         }
-        if point == "put.before_reserve" {
+        if point == "put.before_reserve" || point == "pp.before_reserve" {
+            let now = ctl.point_of(t);
             for p in temp_files(&root) {
                 if !seen_tmp.contains(&p) {
                     seen_tmp.push(p.clone());
-                    if ctl.point_of(t).as_deref() == Some("put.reserved") {
+                    if matches!(now.as_deref(), Some("put.reserved") | Some("pp.reserved")) {
                         temp_of.insert(t, p);
                     }
                 }
             }
         }
+        normalise_mtimes(&root, &mut clock);
     }
 
     // results of the calls
@@ -408,31 +621,53 @@ fn run_case(case: &Sx) -> Sx {
     }
     // a store that the model has interrupted in the middle of its write: leave that much of the entry
     for (t, th) in threads.iter().enumerate() {
-        if let Th::Put { pid, plen, elen, chunks, fail, .. } = th {
-            let all = *chunks + if *fail { 1 } else { 0 };
-            if ctl.point_of(t).as_deref() == Some("put.reserved") && chunks_done[t] > 0 && chunks_done[t] < all {
-                if let Some(p) = temp_of.get(&t) {
-                    let bytes = entry_for(*pid, *plen).finish().unwrap();
-                    let total = if *fail { *elen / 2 } else { *elen };
-                    let n = if chunks_done[t] >= *chunks { total } else { (total / *chunks) * chunks_done[t] } as usize;
-                    if let Ok(mut f) = std::fs::OpenOptions::new().write(true).open(p) {
-                        let _ = f.write_all(&bytes[..n.min(bytes.len())]);
-                    }
+        let (bytes, total, chunks, all) = match th {
+            Th::Put { pid, plen, elen, chunks, fail, .. } => (
+                entry_for(*pid, *plen).finish().unwrap(),
+                if *fail { *elen / 2 } else { *elen },
+                *chunks,
+                *chunks + if *fail { 1 } else { 0 },
+            ),
+            Th::PpPut { pid, plen, elen, chunks, .. } => (pp_bytes(*pid, *plen), *elen, *chunks, *chunks + 1),
+            _ => continue,
+        };
+        let at = ctl.point_of(t);
+        if matches!(at.as_deref(), Some("put.reserved") | Some("pp.reserved")) && chunks_done[t] > 0 && chunks_done[t] < all {
+            if let Some(p) = temp_of.get(&t) {
+                let n = if chunks_done[t] >= chunks { total } else { (total / chunks) * chunks_done[t] } as usize;
+                if let Ok(mut f) = std::fs::OpenOptions::new().write(true).open(p) {
+                    let _ = f.write_all(&bytes[..n.min(bytes.len())]);
                 }
             }
         }
     }
 
-    let observe = |c: &DiskCache| -> Vec<Sx> {
-        let obs: Vec<Sx> = keys.iter().map(|k| do_get(&handle, c, &known, k)).collect();
-        vec![Sx::L(obs), Sx::usize(temp_files(&root).len()), size_of(&handle, c)]
+    let mut observe = |c: &DiskCache, clock: &mut i64| -> Vec<Sx> {
+        let mut om = vec![];
+        let mut op = vec![];
+        for round in 0..2 {
+            if (round == 0) == pp_first {
+                for k in &pkeys {
+                    op.push(do_pp_get(&handle, c, &known, k, || {}));
+                    normalise_mtimes(&root, clock);
+                }
+            } else {
+                for k in &mkeys {
+                    om.push(do_get(&handle, c, &known, k));
+                    normalise_mtimes(&root, clock);
+                }
+            }
+        }
+        let mut v = vec![Sx::L(om), Sx::L(op), Sx::usize(temp_files(&root).len()), size_of(&handle, c)];
+        v.extend(indexes_of(c));
+        v
     };
     let mut out = vec![Sx::L(results)];
-    out.extend(observe(&cache));
+    out.extend(observe(&cache, &mut clock));
 
     // the server dies: nothing in flight is resumed, nothing is cleaned up; a new server opens the directory
-    let cache2 = DiskCache::new(&root, cap, &handle, PreprocessorCacheModeConfig::default(), CacheMode::ReadWrite);
-    out.extend(observe(&cache2));
+    let cache2 = new_cache();
+    out.extend(observe(&cache2, &mut clock));
 
     // tidy up: let the abandoned calls run out (their results are ignored)
     {
@@ -446,6 +681,7 @@ fn run_case(case: &Sx) -> Sx {
         }
     }
     hooks::set_sync_controller(None);
+    *CUR_CTL.lock().unwrap() = None;
     drop(cache2);
     drop(cache);
     rt.shutdown_timeout(Duration::from_secs(5));
@@ -466,7 +702,11 @@ fn set_fsize_limit(n: Option<u64>) {
 }
 
 fn run_size(case: &Sx) -> Sx {
-    let n = entry_for(case.arg(0).u64(), case.arg(1).u64()).finish().unwrap().len();
+    let n = if case.list().len() == 3 {
+        pp_bytes(case.arg(1).u64(), case.arg(2).u64()).len()
+    } else {
+        entry_for(case.arg(0).u64(), case.arg(1).u64()).finish().unwrap().len()
+    };
     Sx::usize(n)
 }
 
